@@ -84,5 +84,44 @@ theorem tri_region_value (Δ t1 : ℝ) :
   simp only [add_sub_cancel_left]
   rw [Complex.real_smul]
 
+
+omit hC hη in
+/-- what the quadrature of `correlation` is given — the closure itself over `(0, cutoff)`, or after
+    the substitution `x = ω/cutoff` the function `cutoff·integrand(cutoff·x)` over `(0, 1)` — has
+    the integral of the closure over `(0, cutoff)`; likewise every truncation `(upper, upper·R)` of
+    the tail is the integral over `(cutoff, cutoff·R)` -/
+theorem corr_scaled_integral (f : ℂ → ℂ) (c R : ℝ) :
+    (∫ x in (0:ℝ)..(corr_upper (c : ℂ)).re, corr_scaledIntegrand (c : ℂ) f (x : ℂ))
+        = ∫ w in (0:ℝ)..c, f (w : ℂ)
+    ∧ (∫ x in (corr_upper (c : ℂ)).re..(corr_upper (c : ℂ)).re * R, corr_scaledIntegrand (c : ℂ) f (x : ℂ))
+        = ∫ w in c..c * R, f (w : ℂ) := by
+  simp only [corr_scaledIntegrand, corr_upper]
+  first
+    | exact ⟨rfl, rfl⟩
+    | (simp only [Int.cast_one, Complex.one_re, ← Complex.ofReal_mul, one_mul]
+       rw [intervalIntegral.integral_const_mul, intervalIntegral.integral_const_mul,
+         ← Complex.real_smul, ← Complex.real_smul,
+         intervalIntegral.smul_integral_comp_mul_left (fun w : ℝ => f (w : ℂ)) c,
+         intervalIntegral.smul_integral_comp_mul_left (fun w : ℝ => f (w : ℂ)) c]
+       simp)
+    | simp [Complex.ofReal_re]
+
+omit hC hη in
+theorem eta_scaled_integral (f : ℂ → ℂ) (c R : ℝ) :
+    (∫ x in (0:ℝ)..(eta_upper (c : ℂ)).re, eta_scaledIntegrand (c : ℂ) f (x : ℂ))
+        = ∫ w in (0:ℝ)..c, f (w : ℂ)
+    ∧ (∫ x in (eta_upper (c : ℂ)).re..(eta_upper (c : ℂ)).re * R, eta_scaledIntegrand (c : ℂ) f (x : ℂ))
+        = ∫ w in c..c * R, f (w : ℂ) := by
+  simp only [eta_scaledIntegrand, eta_upper]
+  first
+    | exact ⟨rfl, rfl⟩
+    | (simp only [Int.cast_one, Complex.one_re, ← Complex.ofReal_mul, one_mul]
+       rw [intervalIntegral.integral_const_mul, intervalIntegral.integral_const_mul,
+         ← Complex.real_smul, ← Complex.real_smul,
+         intervalIntegral.smul_integral_comp_mul_left (fun w : ℝ => f (w : ℂ)) c,
+         intervalIntegral.smul_integral_comp_mul_left (fun w : ℝ => f (w : ℂ)) c]
+       simp)
+    | simp [Complex.ofReal_re]
+
 end
 end OQuPyVerif.BathCorrIntegral
